@@ -957,6 +957,36 @@ theorem C10_materialise_partial (hraw : commentsRaw = true) (env : Env F) (stric
   · obtain ⟨sk', h⟩ := C01_read_record_partial env strict hcri hagg rg.1.ps hne hcov l sk (rg.1.t4 rest)
     exact ⟨_, h, rfl, rfl, rfl⟩
 
+/-- **`loadInstance` at the recorded offsets** (`_partial`): the byte range the index records is the one `STEPread` is given.  For every
+    file of `C10_index_equals_eager_partial`: the scanner records one offset per instance (`scanBegins`: `inst.loc.begin = tellg()` before
+    `readInstanceNumber`, regenerated tie) — as many as the eager reader creates instances — and from each recorded offset
+    `getRealInstance`'s positioning (`stepReadInput` on the file from that offset on) hands `STEPread` exactly the parameter list of
+    the record the entry stands for: `( p₁ , … , pₙ ) s4 ;` and the rest of the file.  With `C10_materialise_partial` (what `STEPread`
+    makes of that text) this is the materialisation of an indexed instance from its recorded byte range.  Exclusions as there. -/
+theorem C10_materialise_at_recorded_offsets_partial (ops : FloatOps F) (lex : LexCfg) (cfg : RWCfg) (d : Dict)
+    (rs : List (Rec F × List Nat)) (g0 sp tail : List Nat) (hg0 : Seps g0) (hsp : sp.all StepModel.isSpace = true)
+    (hrec : ∀ rg ∈ rs, RecCovered { ops := ops, lex := lex, cfg := cfg, dict := d,
+                                    lookup := Mgr.lookup d ({ insts := rs.map (mkInst d) } : Mgr F) } rg)
+    (hraw : commentsRaw = true) (hlz : ∀ rg ∈ rs, LazySide rg) (hs0 : Small g0) (hssp : Small sp) (f : Nat)
+    (hf : 6 * (g0 ++ renderRecs rs (RLemmas.endsec sp tail)).length + 30 ≤ f) :
+    ∃ offs, scanBegins (cs (g0 ++ renderRecs rs (RLemmas.endsec sp tail))) = .ok offs ∧ offs.length = rs.length ∧
+      All2 (fun off rg => ∃ rest, stepReadInput f ((cs (g0 ++ renderRecs rs (RLemmas.endsec sp tail))).drop off) =
+        .ok ('(' :: (cs (renderParams rg.1.ps) ++ (cs rg.1.s4 ++ (';' :: rest))))) offs rs := by
+  have hlz' : LazyRecs rs := lazyRecs_of_covered _ rs hrec hlz
+  obtain ⟨offs, h1, h2⟩ := scanBegins_file hraw rs hlz' g0 sp tail hg0 hs0 hsp hssp
+  refine ⟨offs, h1, h2.length_eq, h2.imp_mem ?_⟩
+  intro off rg hrg hb
+  obtain ⟨_, lead, rest, hl1, hl2, hd⟩ := hb
+  obtain ⟨hlex, hlr, _, _⟩ := hlz' rg hrg
+  refine ⟨rest, ?_⟩
+  simp only [Nat.sub_zero] at hd
+  rw [hd]
+  apply stepReadInput_lrec hraw lead hl1 hl2 rg.1 hlex hlr rest f
+  have hlen : (lrec lead rg.1 rest).length ≤ (cs (g0 ++ renderRecs rs (RLemmas.endsec sp tail))).length := by
+    rw [← hd, List.length_drop]; omega
+  rw [cs_length] at hlen
+  omega
+
 /-! ### the hypotheses of the bridge theorem are satisfiable: a concrete file, every hypothesis discharged -/
 
 namespace Inst
